@@ -119,20 +119,26 @@ def errorIsAccurate (F : FTy) (errors : Nat) (fp : ExtendedFloat80) : Bool :=
 def powersOf (feats : Features) : Nat → Powers :=
   if feats.compact then Gen.Bellerophon.CompactRadix.powers else Gen.Bellerophon.Radix.powers
 
-/-- `bellerophon::<F, FORMAT>(num, lossy)`; `P = bellerophon_powers(format.radix())` -/
-def bellerophon (F : FTy) (P : Powers) (n : Num) (lossy : Bool) : AlgoRes :=
-  let fpZero : ExtendedFloat80 := { mant := 0, exp := 0 }
-  let fpInf : ExtendedFloat80 := { mant := 0, exp := F.C.infinitePower }
-  if n.mantissa = 0 ∨ n.exponent ≤ -litExpCut then .ok fpZero
-  else if n.exponent ≥ litExpCut then .ok fpInf
+/-- first half of `bellerophon` (split off only so that proofs can name it; the Rust has one function):
+the early exits, or the scaled, normalised extended float with its biased exponent and the booked `errors` -/
+inductive Prep where
+  | zero
+  | inf
+  | panic
+  | mid (fp : ExtendedFloat80) (errors : Nat)
+deriving DecidableEq, Repr
+
+def bellPrepare (F : FTy) (P : Powers) (n : Num) : Prep :=
+  if n.mantissa = 0 ∨ n.exponent ≤ -litExpCut then .zero
+  else if n.exponent ≥ litExpCut then .inf
   else
     let exponent : Int := wrapI32 (wrapI32 n.exponent + P.bias)
     if P.step = 0 then .panic                                     -- `exponent % powers.step`
     else
     let smallIndex := Int.tmod exponent P.step
     let largeIndex := Int.tdiv exponent P.step
-    if exponent < 0 then .ok fpZero
-    else if largeIndex.toNat ≥ P.large.size then .ok fpInf
+    if exponent < 0 then .zero
+    else if largeIndex.toNat ≥ P.large.size then .inf
     else
       let errors : Nat :=
         if n.manyDigits then
@@ -155,13 +161,25 @@ def bellerophon (F : FTy) (P : Powers) (n : Num) (lossy : Bool) : AlgoRes :=
         let errors := wrap32 (errors + litErrorHalfscale)
         let (fp, shift) := normalize fp
         let errors := wrap32 (errors * 2 ^ (shift % 32))
-        let fp := { fp with exp := fp.exp + F.C.exponentBias }
-        if -fp.exp + 1 > litZeroShift then .ok fpZero
-        else if !lossy && !errorIsAccurate F errors fp then .ok { fp with exp := fp.exp + invalidFp }
-        else if -fp.exp + 1 = litZeroShift then .ok fpZero
-        else
-          .ok (round F fp fun f s =>
-            roundNearestTieEven f s fun isOdd isHalfway isAbove => isAbove || (isOdd && isHalfway))
+        .mid { fp with exp := fp.exp + F.C.exponentBias } errors
       | _, _, _ => .panic
+
+/-- second half of `bellerophon`: underflow cut, the accuracy decision, rounding -/
+def bellFinish (F : FTy) (fp : ExtendedFloat80) (errors : Nat) (lossy : Bool) : AlgoRes :=
+  let fpZero : ExtendedFloat80 := { mant := 0, exp := 0 }
+  if -fp.exp + 1 > litZeroShift then .ok fpZero
+  else if !lossy && !errorIsAccurate F errors fp then .ok { fp with exp := fp.exp + invalidFp }
+  else if -fp.exp + 1 = litZeroShift then .ok fpZero
+  else
+    .ok (round F fp fun f s =>
+      roundNearestTieEven f s fun isOdd isHalfway isAbove => isAbove || (isOdd && isHalfway))
+
+/-- `bellerophon::<F, FORMAT>(num, lossy)`; `P = bellerophon_powers(format.radix())` -/
+def bellerophon (F : FTy) (P : Powers) (n : Num) (lossy : Bool) : AlgoRes :=
+  match bellPrepare F P n with
+  | .zero => .ok { mant := 0, exp := 0 }
+  | .inf => .ok { mant := 0, exp := F.C.infinitePower }
+  | .panic => .panic
+  | .mid fp errors => bellFinish F fp errors lossy
 
 end LexVerif.Model.Bellerophon
